@@ -41,6 +41,16 @@ func init() {
 		Run: ruleWaitRemoveReturn,
 	})
 	register(&Rule{
+		ID: "REPR-EQ", Props: []string{"C17"}, Floor: 3,
+		Doc: "the equality predicates of part.Map/part.Set never answer `false` from the representation flags (hasTree, singleton) alone: a negative answer is always backed by a length or key/value comparison, because the same contents can be held in different representations",
+		Run: ruleReprEq,
+	})
+	register(&Rule{
+		ID: "DEDUP-SIBLINGS", Props: []string{"C04"}, Floor: 3,
+		Doc: "every non-unique index iterator that de-duplicates objects by primary key does so with a set (map lookup + map update keyed by the encoded primary) like its siblings: an object reachable through several keys is yielded once",
+		Run: ruleDedupSiblings,
+	})
+	register(&Rule{
 		ID: "ENC-NORMAL", Props: []string{"C18"}, Floor: 3,
 		Doc: "the address encoders of package index normalise to the 16-byte form (To16/As16) so equal addresses give equal, constant-width keys",
 		Run: ruleEncNormal,
@@ -433,6 +443,59 @@ func ruleLpmDiverge(c *Ctx, r *Reporter) {
 				}
 			}
 			r.check(full, key, c.posStr(instrPos(u)), "the step into node.children[bit] is only taken where longestMatch covers the node's whole prefix", "the trie is descended past a node without establishing that the query matches the node's whole (compressed) prefix: bits skipped by path compression are never compared, so lookups reach entries the key does not match")
+			// (iii) after a full match the loop continues by descending: no exit in between
+			if phi, ok := node.(*ssa.Phi); ok {
+				loop := naturalLoop(phi.Block())
+				for _, ib := range allInstrs(fn) {
+					iff, ok := ib.In.(*ssa.If)
+					if !ok || !loop[iff.Block()] || !iff.Block().Dominates(u.Block()) {
+						continue
+					}
+					bo, ok := iff.Cond.(*ssa.BinOp)
+					if !ok || !isML(bo.X) || !isNodeLen(bo.Y) {
+						continue
+					}
+					var cont *ssa.BasicBlock
+					switch bo.Op {
+					case token.LSS, token.NEQ:
+						cont = iff.Block().Succs[1]
+					case token.GEQ, token.EQL:
+						cont = iff.Block().Succs[0]
+					default:
+						continue
+					}
+					var exit *ssa.BasicBlock
+					seen := map[*ssa.BasicBlock]bool{}
+					var walk func(b *ssa.BasicBlock)
+					walk = func(b *ssa.BasicBlock) {
+						if seen[b] || b == phi.Block() || exit != nil {
+							return
+						}
+						seen[b] = true
+						if !loop[b] {
+							exit = b
+							return
+						}
+						if isPanicBlock(b) {
+							return
+						}
+						for _, s2 := range b.Succs {
+							walk(s2)
+						}
+					}
+					walk(cont)
+					k3 := fmt.Sprintf("%s|after a full match the loop only continues by descending", name)
+					if exit == nil {
+						r.ok(k3, c.posStr(instrPos(iff)), "between the full-match test and the step into the child there is no way out of the loop")
+					} else {
+						p := c.posStr(fn.Pos())
+						if len(exit.Instrs) > 0 {
+							p = c.posStr(instrPos(exit.Instrs[0]))
+						}
+						r.bad(k3, p, "the traversal can leave the loop after a node's prefix fully matched but before descending (an extra early exit): bookkeeping done on the way down (larger siblings for LowerBound, parents for Delete) or the subtree itself is skipped")
+					}
+				}
+			}
 			if !queryFns[fn.Name()] {
 				continue
 			}
@@ -1007,4 +1070,148 @@ func singletonPaths(c *Ctx, fn *ssa.Function, mig *ssa.Call, others []*ssa.Call)
 	}
 	walk(fn.Blocks[0], st{nilFacts: map[string]bool{}, visits: map[*ssa.BasicBlock]int{}})
 	return bad, true
+}
+
+func ruleDedupSiblings(c *Ctx, r *Reporter) {
+	n := 0
+	for _, fn := range c.Funcs {
+		if fn.Package() == nil || shortPkg(fn.Package().Pkg.Path()) != "statedb" {
+			continue
+		}
+		prims := callsIn(c, fn, "statedb.(nonUniqueKey).encodedPrimary")
+		if len(prims) == 0 {
+			continue
+		}
+		n++
+		key := c.fnName(fn) + "|de-duplicates with a visited set"
+		// string(primary) converted, used in a Lookup(commaok) and a MapUpdate on the same map type
+		var lk *ssa.Lookup
+		var mu *ssa.MapUpdate
+		fromPrim := func(v ssa.Value) bool {
+			cv, ok := v.(*ssa.Convert)
+			if !ok {
+				return false
+			}
+			for _, p := range prims {
+				if cv.X == ssa.Value(p) {
+					return true
+				}
+			}
+			return false
+		}
+		for _, ia := range allInstrs(fn) {
+			switch x := ia.In.(type) {
+			case *ssa.Lookup:
+				if x.CommaOk && fromPrim(x.Index) {
+					lk = x
+				}
+			case *ssa.MapUpdate:
+				if fromPrim(x.Key) {
+					mu = x
+				}
+			}
+		}
+		good := lk != nil && mu != nil && types.Identical(lk.X.Type(), mu.Map.Type())
+		r.check(good, key, c.posStr(fn.Pos()), "visited[string(primary)] is consulted and updated for every candidate", "the iterator extracts the primary key for de-duplication but does not keep a visited *set* like its sibling iterators: an object reachable through several index keys can be yielded more than once")
+	}
+	if n < 3 {
+		r.undecided("iterators", "-", fmt.Sprintf("expected 3 de-duplicating iterators, found %d", n))
+	}
+}
+
+func ruleReprEq(c *Ctx, r *Reporter) {
+	for _, spec := range [][2]string{{"Set", "Equal"}, {"Map", "EqualKeys"}, {"Map", "SlowEqual"}} {
+		fn := c.Func("part", spec[0], spec[1])
+		if fn == nil {
+			r.anchorMissing("part.(" + spec[0] + ")." + spec[1])
+			continue
+		}
+		key := c.fnName(fn) + "|negative answers are backed by a comparison"
+		isCompare := func(v ssa.Value) bool {
+			switch x := v.(type) {
+			case *ssa.Call:
+				n := c.calleeName(x)
+				return n == "bytes.Equal" || n == "reflect.DeepEqual"
+			case *ssa.BinOp:
+				// Len() != Len()
+				l, ok1 := x.X.(*ssa.Call)
+				rr, ok2 := x.Y.(*ssa.Call)
+				if ok1 && ok2 {
+					lf, rf := staticCallee(l), staticCallee(rr)
+					return lf != nil && rf != nil && lf.Name() == "Len" && rf.Name() == "Len"
+				}
+			}
+			return false
+		}
+		bad := ""
+		var badPos ssa.Instruction
+		var leaf func(v ssa.Value, blk *ssa.BasicBlock, seen map[ssa.Value]bool)
+		leaf = func(v ssa.Value, blk *ssa.BasicBlock, seen map[ssa.Value]bool) {
+			if seen[v] {
+				return
+			}
+			seen[v] = true
+			switch x := v.(type) {
+			case *ssa.Phi:
+				for i, e := range x.Edges {
+					leaf(e, x.Block().Preds[i], seen)
+				}
+			case *ssa.Const:
+				if x.Value != nil && x.Value.String() == "false" {
+					backed := false
+					fs := factsAt(blk)
+					for _, f := range fs {
+						cond, _ := stripNot(f.Cond, f.Val)
+						if isCompare(cond) {
+							backed = true
+						}
+					}
+					// a short-circuit `a && b` puts the false constant on the edge leaving a's test
+					if len(blk.Instrs) > 0 {
+						if iff, ok := blk.Instrs[len(blk.Instrs)-1].(*ssa.If); ok {
+							cond, _ := stripNot(iff.Cond, true)
+							if isCompare(cond) {
+								backed = true
+							}
+						}
+					}
+					if !backed {
+						bad = "returns false without a length/key/value comparison on that path"
+					}
+				}
+			case *ssa.Call:
+				if !isCompare(x) {
+					bad = "returns the result of " + c.calleeName(x)
+				}
+			case *ssa.BinOp:
+				if isCompare(x) {
+					return
+				}
+				s := x.String()
+				_ = s
+				for _, op := range []ssa.Value{x.X, x.Y} {
+					if p, ok := isLoad(op); ok {
+						if fa, ok := p.(*ssa.FieldAddr); ok {
+							_, f, _ := fieldOf(fa)
+							if f == "hasTree" || f == "singleton" {
+								bad = "compares the representation flag `" + f + "` of the two values"
+							}
+						}
+					}
+				}
+			}
+		}
+		for _, ret := range returnsOf(fn) {
+			before := bad
+			leaf(ret.Results[0], ret.Block(), map[ssa.Value]bool{})
+			if bad != before && badPos == nil {
+				badPos = ret
+			}
+		}
+		if bad == "" {
+			r.ok(key, c.posStr(fn.Pos()), "`false` is only returned after a length or key/value comparison failed; representation flags only short-cut to true")
+		} else {
+			r.bad(key, c.posStr(instrPos(badPos)), "the equality predicate "+bad+": two values holding the same contents in different internal representations (empty tree vs no tree, singleton vs tree) compare unequal")
+		}
+	}
 }
